@@ -6,6 +6,8 @@ import (
 
 	"golang.org/x/net/html"
 
+	"github.com/titpetric/vuego"
+
 	"verif/engine/core"
 	"verif/engine/htmlcmp"
 )
@@ -118,6 +120,7 @@ func (c *c06Case) Run(ctx *core.Ctx) {
 		})
 	}
 	trig := ""
+	withComponents := false
 	switch c.Part {
 	case "k1":
 		build := func(hdr, def, ftr, kind, sfx string) (inc string, h, d, f string, titles []string) {
@@ -197,6 +200,10 @@ func (c *c06Case) Run(ctx *core.Ctx) {
 			comp = `<ul class="c"><li><slot :item="p">FB{{ p }}</slot></li><li><slot :index="n">FB{{ p }}</slot></li></ul>`
 			incAttrs = ` :p="pv" :n="n7"`
 			want = []string{"PV/", "/7"}
+		case "K2long": // the long form of the binding on the slot
+			comp = `<ul class="c"><li><slot v-bind:item="p" v-bind:index="n">FB{{ p }}</slot></li></ul>`
+			incAttrs = ` :p="pv" :n="n7"`
+			want = []string{"PV/7"}
 		case "K5":
 			comp = `<ul class="c"><li><slot name="row" :item="p" :index="n">FB{{ p }}</slot></li></ul>`
 			incAttrs = ` :p="pv" :n="n7"`
@@ -352,6 +359,14 @@ func (c *c06Case) Run(ctx *core.Ctx) {
 			expectText("section", []string{ctext}, "component-slot")
 			want = "LFB"
 		}
+		if c.Var == "for-component-short" {
+			// the same with a registered shorthand tag
+			files["components/SideBox.vuego"] = `<section><slot name="side">CFB</slot></section>`
+			files["page.vuego"] = "---\nlayout: l\n---\n" + `<side-box><template #side>` + csrc + `</template></side-box><p>body</p>`
+			expectText("section", []string{ctext}, "component-slot")
+			want = "LFB"
+			withComponents = true
+		}
 		expectText("aside", []string{want}, "layout-slot")
 		trig = c.Var + "/" + c.Kind
 	}
@@ -364,7 +379,11 @@ func (c *c06Case) Run(ctx *core.Ctx) {
 		trig += "/after-" + c.After
 	}
 	ctx.Eval(1)
-	out, err := renderPage(files, "page.vuego", data)
+	var opts []vuego.LoadOption
+	if withComponents {
+		opts = append(opts, vuego.WithComponents())
+	}
+	out, err := renderPage(files, "page.vuego", data, opts...)
 	if err != nil {
 		ctx.Violation("render-error", c.Part, trig, fmt.Sprintf("%v\n%s", err, files))
 		return
@@ -413,7 +432,7 @@ func init() {
 					}
 				}
 			}
-			for _, comp := range []string{"K2", "K2same", "K3", "K3nil", "K2two", "K5"} {
+			for _, comp := range []string{"K2", "K2same", "K2long", "K3", "K3nil", "K2two", "K5"} {
 				for _, form := range []string{"var", "destructure", "fallback", "plain"} {
 					emit(&c06Case{Part: "scoped", Comp: comp, Form: form})
 				}
@@ -437,6 +456,8 @@ func init() {
 			emit(&c06Case{Part: "layout", Var: "none", Kind: "static"})
 			emit(&c06Case{Part: "layout", Var: "for-component", Kind: "static"})
 			emit(&c06Case{Part: "layout", Var: "for-component", Kind: "dyn"})
+			emit(&c06Case{Part: "layout", Var: "for-component-short", Kind: "static"})
+			emit(&c06Case{Part: "layout", Var: "for-component-short", Kind: "dyn"})
 			for _, f := range []string{"hash", "vslot", "lower", "none"} {
 				emit(&c06Case{Part: "case", Form: f})
 			}
